@@ -73,6 +73,34 @@ class CtxBase:
     def lib(self, name=''):
         return lib(name)
 
+    def track(self, stream):
+        """remember a stream the library reads from, so that drain() can move it"""
+        if not hasattr(self, '_streams'):
+            self._streams = []
+        self._streams.append(stream)
+        return stream
+
+    def drain(self, iterable):
+        """list(iterable), but between two steps of the iterator every tracked stream is left at an arbitrary position (one
+        symbolic position per drain): an iterator must not rely on where the shared stream was left while it was suspended,
+        the caller may use the file for anything in the loop body"""
+        n = self._ndrain = getattr(self, '_ndrain', 0) + 1
+        pos = None
+        out = []
+        it = iter(iterable)
+        while True:
+            try:
+                x = next(it)
+            except StopIteration:
+                break
+            out.append(x)
+            streams = [st for st in getattr(self, '_streams', []) if not getattr(st, 'closed', False)]
+            if streams and pos is None:
+                pos = self.int_range('drain%d.pos' % n, 0, 4095)
+            for st in streams:
+                st.seek(pos)
+        return out
+
     def outcome(self, label):
         self._outcome = label
 
